@@ -44,7 +44,6 @@ OBL_CLASSES = [
     ("assertion failure", "assertion"),
     ("decreases not satisfied", "termination"),
     ("could not prove termination", "termination"),
-    ("loop must have a decreases", "termination"),
     ("possible arithmetic underflow/overflow", "arithmetic"),
     ("possible division by zero", "arithmetic"),
     ("possible bit shift underflow/overflow", "arithmetic"),
